@@ -106,7 +106,8 @@ where
         let lp = <Categorical<F> as Discrete<F>>::logp(&cat, i).to_f64().unwrap();
         let lt = <Categorical<F> as Target<usize, F>>::unnorm_logp(&cat, &[i]).to_f64().unwrap();
         let expect = if i < len { probs[i].ln() } else { f64::NEG_INFINITY };
-        let ok = (lp == expect || (lp - expect).abs() <= 4.0 * F::eps() * expect.abs().max(1.0)) && (lt == lp || (lt.is_nan() && lp.is_nan()));
+        // (an infinite expectation must be met exactly: zero probability <=> -inf)
+        let ok = (lp == expect || (expect.is_finite() && (lp - expect).abs() <= 4.0 * F::eps() * expect.abs().max(1.0))) && (lt == lp || (lt.is_nan() && lp.is_nan()));
         if !ok {
             rep.violation(&format!("{sig} logp"), mon, case, json!({"cfg": wj(), "index": i, "logp": fj(lp), "target_logp": fj(lt), "expected": fj(expect)}));
             return;
